@@ -25,6 +25,10 @@ class _Run:
 
 
 class Resource:
+    # (unused slots: an instance size that nothing else in a run has - the allocator then gives the block of a resource that has
+    #  just died to the next resource that is created: same address, run after run. See Res.track, 'ephemeral'.)
+    __slots__ = tuple("_pad%02d" % i for i in range(27)) + ("__dict__", "__weakref__")
+
     def __init__(self, conn, idx):
         self.conn = conn
         self.idx = idx
@@ -66,6 +70,13 @@ class Res:
         conn = c.sock.conn if owner is None else owner
         rs = run["resources"].setdefault(conn, [])
         new = []
+        if (n + untrack + conn) % 3 == 0:
+            # a resource that the application tracks and then simply lets go of (tracking is weak: it just disappears from the
+            # connection's list); the next resource is created right away - at the dead one's address
+            tmp = Resource(conn, -1)
+            cctx.track_resource(tmp)
+            del tmp
+            run["probe"]("ephemeral_resource")
         for _ in range(n):
             r = Resource(conn, len(rs))
             rs.append(r)
